@@ -67,4 +67,30 @@ let register (h : (string, string list -> string) Hashtbl.t)
       let dsk = String.concat " " (List.map (fun ro -> role_str ro ^ "=" ^ fstate_str (r.r_disk ro)) [RIn; ROut; RTmp; RBackup; RMd5]) in
       let so = match r.r_out with None -> "none" | Some o -> hex_of_bytes o.stdout in
       Printf.sprintf "exit=%s ops=%d stdout=%s | %s | %s" ex (int_of_nat r.r_ops) so dsk tr
-    | _ -> failwith "fsproto args")
+    | _ -> failwith "fsproto args");
+  (* ---------------- Model E': Backup (content level; digest := bytes, h := identity) ----------------
+     backup_step <file hex> <backup hex|none> <complete 0|1> <md5-of hex|none> <prot hex>
+                 <event: E:<hex> | R:<out hex|FAIL>:<K0|K1.j|K2|K3|C>>
+     -> admissible file backup complete md5 prot' *)
+  Hashtbl.replace h "backup_step" (fun args ->
+    match args with
+    | [fl; bk; cpl; md; prot; ev] ->
+      let s = { b_file = bytes_of_hex fl;
+                b_backup = (if bk = "none" then None else Some (bytes_of_hex bk, cpl = "1"));
+                b_md5 = (if md = "none" then None else Some (bytes_of_hex md)) } in
+      let e = (match String.split_on_char ':' ev with
+        | ["E"; c] -> Edit (bytes_of_hex c)
+        | ["R"; out; ph] ->
+          let f = (fun _ -> if out = "FAIL" then None else Some (bytes_of_hex out)) in
+          let p = (if ph = "K0" then K0 else if ph = "K2" then K2 else if ph = "K3" then K3 else if ph = "C" then Completed
+                   else K1 (nat_of_int (int_of_string (String.sub ph 3 (String.length ph - 3))))) in
+          Run (f, p)
+        | _ -> failwith "event") in
+      let adm = admissible idh bytes_eqb s e in
+      let s' = step idh bytes_eqb s e in
+      let prot' = pstep idh bytes_eqb (bytes_of_hex prot) s e in
+      let hx l = if l = [] then "-" else hex_of_bytes l in
+      Printf.sprintf "%d %s %s %s %s" (if adm then 1 else 0) (hx s'.b_file)
+        (match s'.b_backup with None -> "none 0" | Some (b, c) -> hx b ^ (if c then " 1" else " 0"))
+        (match s'.b_md5 with None -> "none" | Some b -> hx b) (hx prot')
+    | _ -> failwith "backup_step args")
